@@ -5,6 +5,13 @@ import json, subprocess
 LOOPNOTE = 'Trusts: A1 token contract (lower-case tag names, exact serialiser/tokeniser round trip), sanitizeAttrs replaced by an arbitrary-result stub, policy tables of at most 2 entries per kind (an upper bound that is general for one step: one step looks up one name per table), z3 5.1 / cvc5 1.0, go/ssa semantics as interpreted.'
 
 CLAIMED = {
+ "C08": dict(
+   text="Bounded model checking of the extracted loop relation: the step relation (one disjunct per feasible symbolic path of the loop body, regenerated from go/ssa) is unrolled k times from the initial loop state together with an SMT-encoded nesting monitor (stack of open elements, count D of open disallowed skip-content elements); unsat of 'a token inside a skipped region is written, or text outside is dropped' for every k up to the bound covers every token sequence, every assignment of names from the name domain and every symbolic policy at once. quick k<=5, thorough k<=7.",
+   note=LOOPNOTE + " Bounded: sequence length k; element names from a finite domain (4 generic names, script, style, one void, one RCDATA name); skip-content set free of void elements and frame (observation recorded in DESIGN.md).", technique="symbolic execution of go/ssa + SMT bounded model checking (k-unrolling of the step relation with a nesting monitor)", design="5 C08"),
+ "C09": dict(
+   text="Bounded model checking as for C08 with a second monitor stack for the written tags: for every k up to the bound, no well-nested token sequence makes the output contain an end tag that does not close the innermost open output element, or leaves an element unclosed. Each model is replayed through Policy.Sanitize and judged by a stack-balance check on the re-tokenised output. The recorded finding (same-name nesting of an element on the skip stack and one that is not) is matched by an SMT-expressed class condition and the query is re-run with that class excluded, so any other violation still fails the check. quick k<=5, thorough k<=6.",
+   note=LOOPNOTE + " Bounded: sequence length k; element names from a finite domain.", technique="symbolic execution of go/ssa + SMT bounded model checking (k-unrolling with input/output nesting monitors)", design="5 C09"),
+
  "C01": dict(
    text="Inductive step decided by SMT: the body of sanitize's token loop is executed symbolically from go/ssa with the loop-carried state havocked, an arbitrary token and a fully symbolic policy (tables, patterns as uninterpreted predicates, switches); the query 'some write is not an allowlisted tag / allowed comment / escaped text / strip space' must be unsat. Covers token histories of any length. A sat answer is turned into a concrete policy+HTML by unrolling the extracted step relation from the initial state and replayed through Policy.Sanitize.",
    note=LOOPNOTE, technique="symbolic execution of go/ssa + SMT (induction over the token loop, k-unrolling for witnesses)", design="5 C01"),
